@@ -84,6 +84,7 @@ OBJ_CONST = 16
 DEFAULT_MAX = 4 * 1024 * 1024
 MEMBER_CAP = 1024
 EQ_MAX_LATITUDE = False  # True would accept the refusal of a message of exactly max_msg_size octets
+EQ_MAX_CLASS = False  # True names "1009 for a message of exactly max_msg_size" as its own class (old C12-F2)
 
 TEXT_ALPHABET = ["a", "b", "z", " ", "0", "\u00e9", "\u20ac", "\U0001F600", "\u03ba"]
 BAD_UTF8 = [b"\xff", b"\xc0\xaf", b"\xed\xa0\x80", b"\xf4\x90\x80\x80", b"\xe2\x82", b"\xc2", b"\xf0\x9f\x98",
@@ -900,7 +901,9 @@ def run(scn, ch, log=False):
                 e = primary.error
                 m_ = cfg["max_msg_size"]
                 code = o["err"] and (o["err"][1] or o["err"][0])
-                if m_ > 1 and o["err"] is not None and o["err"][1] == 1009 and (any(
+                # (the exclusive-bound reading was a divergence class of its own, C12-F2, until aiohttp was repaired in
+                # b9b75b7; kept only as a switch for bisecting old trees)
+                if EQ_MAX_CLASS and m_ > 1 and o["err"] is not None and o["err"][1] == 1009 and (any(
                         matches(o, r, n, scn["end"], cfg)[0] for r in ref_variants(stream, dict(cfg, max_msg_size=m_ - 1)))
                         or next_is_exactly_max(o["msgs"], stream, cfg) or _err_says_size_equals_limit(o["err"])):
                     # explained exactly by reading max_msg_size as an exclusive bound
